@@ -18,7 +18,9 @@ MANIFEST = {
     "text": "Model/Dist.lean models UniformReal, Exponential, Normal (Box-Muller with spare), Gamma "
             "(Marsaglia-Tsang), Poisson (direct + Gaussian branch with the unsigned cast), Reciprocal, "
             "InverseSquare, Radial, Isotropic, UniformBox, Bernoulli, Selector, RejectionSampler (and "
-            "its documented loop), TsaiUrban, the energy-loss gamma/gaussian samplers, and (Model/"
+            "its documented loop), TsaiUrban, the closed-form ionisation samplers (Model/DistIoni.lean: "
+            "Moller, Bhabha, BetheBloch, BraggICRU73QO, MuBB with calc_max_secondary_energy), the "
+            "energy-loss gamma/gaussian samplers, and (Model/"
             "DistEloss.lean) FluctuationParams' Urban parameters, EnergyLossHelper (kinematics, Bohr "
             "variance, model selection), EnergyLossUrbanDistribution (constructor with all branches, "
             "excitation / ionisation / fast sampling) and the helper-selected dispatch, as functions "
@@ -291,7 +293,7 @@ def eloss_world(exe):
     _, o = vlib.run_lines([exe], ["consts"] + ["matdata %x" % m for m in range(5)])
     c = o[0].split()
     w = {"re": c[0], "pi": c[1], "me": c[2],
-         "part": [(c[3 + 2 * i], c[4 + 2 * i]) for i in range(5)], "mat": []}
+         "part": [(c[3 + 2 * i], c[4 + 2 * i]) for i in range(5)], "pm": c[13], "mat": []}
     for m in range(5):
         t = o[1 + m].split()
         w["mat"].append({"eldens": t[0], "numdens": t[1], "matdata": t[2:10],
@@ -440,6 +442,256 @@ def gen_eloss_lines(rng, w, n):
     lines += ["helper 0 0 1 |", "urban 0 |", "eloss |", "uparams 0 0 |"]
     tags += [["malformed"]] * 4
     return lines, tags
+
+
+# --------------------------------------------------------------------------- ionisation samplers
+ME = 0.5109989461
+
+
+def py_tmax(me, mp, energy):
+    ratio, tau = me / mp, energy / mp
+    return 2 * me * tau * (tau + 2) / (1 + 2 * (tau + 1) * ratio + ratio * ratio)
+
+
+def py_beta_sq(mp, energy):
+    return 1 - (mp / (energy + mp)) ** 2
+
+
+def moller_g(gamma, e):
+    t = (2 * gamma - 1) / gamma ** 2
+    c = 1 - e
+    return 1 - t * e + e * e * (1 - t + (1 - t * c) / (c * c))
+
+
+def bhabha_g(gamma, emin, emax):
+    y = 1 / (1 + gamma)
+    o = 1 - 2 * y
+    b1, b2, b4 = 2 - y * y, o * (3 + y * y), o ** 3
+    b3 = o * o + b4
+    return 1 + (emax ** 4 * b4 - emin ** 3 * b3 + emax ** 2 * b2 - emin * b1) * (1 - 1 / gamma ** 2)
+
+
+def mubb_target(mp, me, energy, t, tmax):
+    """(target, envelope, use_rad) of MuBBEnergyDistribution (python evaluation)"""
+    tot, b2 = energy + mp, py_beta_sq(mp, energy)
+    use = energy > 250 and tmax > 0.1
+    aot = 7.2973525693e-3 / (2 * math.pi)
+    env = 1 + aot * math.log(2 * tot / mp) ** 2 if use else 1.0
+    g = 1 - b2 / tmax * t + 0.5 * (t / tot) ** 2
+    if use and t > 0.1:
+        a1 = math.log(1 + 2 * t / me)
+        a3 = math.log(4 * tot * (tot - t) / mp ** 2)
+        g *= 1 + aot * a1 * (a3 - a1)
+    return g, env, use
+
+
+def ioni_script(rng, n):
+    k = n if rng.chance(5, 6) else rng.range(0, n)
+    sc = [rnd_u(rng) for _ in range(k)]
+    if rng.chance(1, 5) and k >= 2:      # endpoints of the proposal with a sure accept / reject
+        sc[0] = rng.choice([0.0, 1 - 2.0 ** -53, 2.0 ** -53, 0.5])
+        sc[1] = rng.choice([0.0, 2.0 ** -53, 1 - 2.0 ** -53, sc[1]])
+    return sc
+
+
+def gen_ioni_lines(rng, w, n):
+    """(dist-harness lines, eloss-harness lines) with tags"""
+    dl, dt, el, et = [], [], [], []
+    me = w["me"]
+    for _ in range(n):
+        k = rng.below(5)
+        sc = " ".join(hx(u) for u in ioni_script(rng, 12))
+        if k < 2:
+            inc = logu(rng, -3, 4)
+            top = 0.5 if k == 0 else 1.0
+            c = rng.below(6)
+            mn = inc * top * (1.0 if c == 0 else (1 - 2.0 ** -40) if c == 1 else 10 ** (-6 * rng.unit()))
+            dl.append("%s %s %s %s | %s" % ("moller" if k == 0 else "bhabha", me, hx(mn), hx(inc), sc))
+            dt.append(["moller" if k == 0 else "bhabha"])
+        else:
+            op = ["bb", "bragg", "mubb"][k - 2]
+            p = rng.choice([2, 3, 4]) if op != "mubb" else rng.choice([2, 3])
+            mp = fl(w["part"][p][0])
+            if op == "bragg":
+                energy = mp * logu(rng, -5, -2.3)
+            elif op == "mubb":
+                energy = logu(rng, -0.7, 6.5)
+            else:
+                energy = mp * logu(rng, -3, 3)
+            tmax = py_tmax(fl(me), mp, energy)
+            c = rng.below(6)
+            cut = tmax * (1.0 if c == 0 else (1 - 2.0 ** -30) if c == 1 else 10 ** (-5 * rng.unit()))
+            words = ["%x" % p, w["part"][p][0], w["part"][p][1], me, hx(energy), hx(cut)]
+            tg = [op + ":" + PARTICLES[p]]
+            if op == "bragg":
+                words.append(w["pm"])
+                low = (5e-3 if fl(w["part"][p][1]) < 0 else 2.5e-4) * mp / fl(w["pm"])
+                tg.append("bragg:min=" + ("cutoff" if cut <= low else "model-limit"))
+            if op == "mubb":
+                tg.append("mubb:" + ("rad" if (energy > 250 and tmax > 0.1) else "no-rad"))
+            el.append("%s %s | %s" % (op, " ".join(words), sc))
+            et.append(tg)
+    # directed endpoints
+    for top, op in ((0.5, "moller"), (1.0, "bhabha")):
+        for inc in (1e-2, 1.0, 100.0):
+            for mn in (inc * top, inc * top * 1e-3):
+                for u1 in (0.0, 2.0 ** -53, 1 - 2.0 ** -53, 0.5):
+                    dl.append("%s %s %s %s | %s %s %s %s" % (op, me, hx(mn), hx(inc), hx(u1), hx(0.0),
+                                                             hx(u1), hx(0.0)))
+                    dt.append([op, "endpoint"])
+    for op, p, energy in (("bb", 4, 10.0), ("bb", 2, 1000.0), ("bragg", 4, 1.0), ("bragg", 2, 0.1),
+                          ("mubb", 2, 1000.0), ("mubb", 3, 10.0)):
+        mp = fl(w["part"][p][0])
+        tmax = py_tmax(fl(me), mp, energy)
+        for cut in (tmax, tmax * 1e-3, 0.00086089962285247038):
+            if cut > tmax:
+                continue
+            for u1 in (0.0, 2.0 ** -53, 1 - 2.0 ** -53, 0.5):
+                words = ["%x" % p, w["part"][p][0], w["part"][p][1], me, hx(energy), hx(cut)]
+                if op == "bragg":
+                    words.append(w["pm"])
+                el.append("%s %s | %s %s %s %s" % (op, " ".join(words), hx(u1), hx(0.0), hx(u1), hx(0.0)))
+                et.append([op + ":" + PARTICLES[p], "endpoint"])
+    dl += ["moller 1 2 |", "bhabha |"]
+    dt += [["malformed"]] * 2
+    el += ["mubb 2 |", "bragg 4 0 |"]
+    et += [["malformed"]] * 2
+    return (dl, dt), (el, et)
+
+
+def ioni_oracle(line, out):
+    """impl-side support predicate: sampled secondary energy (fraction) inside its documented
+    interval (closed, 4 ulp of rounding slack; bounds attained / passed by rounding are counted as
+    notes, cf. C04 endpoint-below-cut:ioni); MuBB: accepted target <= envelope"""
+    w = line.split()
+    op = w[0]
+    if "|" not in w or out.endswith("script-exhausted") or out in ("bad-op", "bad-data"):
+        return ("oracle:ioni:bad-data", "harness rejected the op data") if out == "bad-data" else None
+    ow = out.split()
+    if op in ("moller", "bhabha"):
+        mn, inc = fl(w[2]), fl(w[3])
+        lo, hi, x = mn / inc, (0.5 if op == "moller" else 1.0), fl(ow[0])
+        gam = 1 + inc / fl(w[1])
+        gx = moller_g(gam, x) if op == "moller" else bhabha_g(gam, x, x)
+        gden = moller_g(gam, 0.5) if op == "moller" else bhabha_g(gam, lo, 1.0)
+        if not (0 <= gx <= gden * (1 + 1e-12)):
+            return ("oracle:%s:envelope" % op, "rejection function %r outside [0, envelope %r] at "
+                    "epsilon=%r" % (gx, gden, x))
+    else:
+        lo, hi, x = fl(ow[0]), fl(ow[1]), fl(ow[-2])
+    if not (lo * (1 - 4.5e-16) <= x <= hi * (1 + 4.5e-16)):
+        return ("oracle:%s:support" % op, "sampled %r outside [%r, %r]" % (x, lo, hi))
+    if x < lo:
+        BOUNDARY[op + ":below-min-by-rounding"] = BOUNDARY.get(op + ":below-min-by-rounding", 0) + 1
+    if x > hi:
+        BOUNDARY[op + ":above-max-by-rounding"] = BOUNDARY.get(op + ":above-max-by-rounding", 0) + 1
+    if op == "mubb":
+        mp, me, energy = fl(w[2]), fl(w[4]), fl(w[5])
+        g, env, use = mubb_target(mp, me, energy, x, hi)
+        if (ow[2] == "1") != use or g > env * (1 + 1e-12) or g < 0:
+            return ("oracle:mubb:envelope", "target %r outside [0, envelope %r] at T=%r (E=%r)" % (
+                g, env, x, energy))
+    return None
+
+
+def numeric_cdf(pdf, lo, hi, n=4000):
+    """tabulated CDF of an unnormalised density on [lo, hi] (log-spaced Simpson panels)"""
+    if hi <= lo * (1 + 1e-12):
+        return lambda x: 0.0 if x < lo else 1.0
+    r = math.log(hi / lo)
+    xs = [lo * math.exp(r * i / n) for i in range(n + 1)]
+    xs[-1] = hi
+    cum = [0.0]
+    for i in range(n):
+        a, b = xs[i], xs[i + 1]
+        m = 0.5 * (a + b)
+        cum.append(cum[-1] + (b - a) / 6 * (pdf(a) + 4 * pdf(m) + pdf(b)))
+    tot = cum[-1]
+
+    def cdf(x):
+        if x <= lo:
+            return 0.0
+        if x >= hi:
+            return 1.0
+        i = min(int(math.log(x / lo) / r * n), n - 1)
+        while i > 0 and xs[i] > x:
+            i -= 1
+        while i < n - 1 and xs[i + 1] < x:
+            i += 1
+        f = (x - xs[i]) / (xs[i + 1] - xs[i])
+        return (cum[i] + f * (cum[i + 1] - cum[i])) / tot
+    return cdf
+
+
+def ioni_stat_cases(rng, w, n_cases):
+    cases = []
+    me = fl(w["me"])
+    for k in range(n_cases):
+        kind = k % 5
+        if kind < 2:
+            inc = logu(rng, -2, 3)
+            top = 0.5 if kind == 0 else 1.0
+            mn = inc * top * 10 ** (-0.3 - 3 * rng.unit())
+            gamma = 1 + inc / me
+            if kind == 0:
+                def pdf(e, gamma=gamma):
+                    return moller_g(gamma, e) / (e * e)
+            else:
+                def pdf(e, gamma=gamma):
+                    return bhabha_g(gamma, e, e) / (e * e)
+            cases.append({"harness": "dist", "op": "moller" if kind == 0 else "bhabha",
+                          "words": [w["me"], hx(mn), hx(inc)], "cdf": numeric_cdf(pdf, mn / inc, top),
+                          "desc": "%s T=%.4g cut=%.4g" % ("Moller" if kind == 0 else "Bhabha", inc, mn)})
+        else:
+            op = ["bb", "bragg", "mubb"][kind - 2]
+            p = rng.choice([2, 3, 4]) if op != "mubb" else rng.choice([2, 3])
+            mp = fl(w["part"][p][0])
+            energy = (mp * logu(rng, -5, -2.3) if op == "bragg" else logu(rng, -0.7, 6) if op == "mubb"
+                      else mp * logu(rng, -2, 3))
+            tmax = py_tmax(me, mp, energy)
+            cut = tmax * 10 ** (-0.2 - 4 * rng.unit())
+            lo = cut
+            words = ["%x" % p, w["part"][p][0], w["part"][p][1], w["me"], hx(energy), hx(cut)]
+            if op == "bragg":
+                words.append(w["pm"])
+                lo = min(cut, (5e-3 if fl(w["part"][p][1]) < 0 else 2.5e-4) * mp / fl(w["pm"]))
+            b2 = py_beta_sq(mp, energy)
+            if op == "mubb":
+                def pdf(t, mp=mp, energy=energy, tmax=tmax):
+                    return mubb_target(mp, me, energy, t, tmax)[0] / (t * t)
+            else:
+                def pdf(t, b2=b2, tmax=tmax):
+                    return (1 - b2 * t / tmax) / (t * t)
+            cases.append({"harness": "eloss", "op": op, "words": words, "cdf": numeric_cdf(pdf, lo, tmax),
+                          "desc": "%s %s E=%.4g cut=%.4g Tmax=%.4g" % (op, PARTICLES[p], energy, cut, tmax)})
+    return cases
+
+
+def ioni_stat_oracle(ctx, exes, w, n_cases, n, alpha=1e-4):
+    """TEST: KS distance between the sampled secondary energies (real XorwowRngEngine) and the
+    analytic differential cross-section shape f(T) g(T); 3-seed retest before reporting"""
+    res, total = {}, 0
+    base = ctx.seed * 31337 + 7
+    for ci, c in enumerate(ioni_stat_cases(ctx.rng, w, n_cases)):
+        def pval(seed):
+            _, o = vlib.run_lines([exes[c["harness"]]], ["stat %x %x %s %s" % (seed, n, c["op"], " ".join(c["words"]))])
+            xs = [fl(t) for t in o[0].split()]
+            return ks_pvalue(xs, c["cdf"])[0], len(xs)
+        pv, cnt = pval(base + ci)
+        total += cnt
+        res[c["desc"]] = pv
+        if pv < alpha:
+            again = [pval(base + 15485863 * (j + 1) + ci)[0] for j in range(3)]
+            total += 3 * cnt
+            res[c["desc"] + " (confirm)"] = again
+            if all(q < alpha for q in again):
+                ctx.violation("stat:ioni-shape:" + c["op"],
+                              f"statistical test: {c['desc']}: sampled secondary energies do not follow "
+                              f"the analytic shape (KS p={pv:.3g}, confirmation {again})",
+                              {"harness": "harness/%s.cc" % c["harness"],
+                               "op": "stat %x %x %s %s" % (base + ci, n, c["op"], " ".join(c["words"])),
+                               "p_values": [pv] + again, "alpha": alpha, "n": n})
+    return res, total
 
 
 RHO = [2.26, 1.78e-3, 8.96, 11.35, 1.396]       # g/cm^3 of harness materials (steering only)
@@ -986,6 +1238,50 @@ def eloss_part(ctx, ps, broken, quick):
                          "oracle_keys": sorted(seen), "statistical_mean_test": st}}
 
 
+def ioni_part(ctx, ps, broken, quick):
+    """closed-form ionisation samplers: exact diff, support oracle (incl. endpoints), shape test"""
+    exes = {}
+    for h in ("dist", "eloss"):
+        exes[h], log, _ = vlib.build_harness(h, HARNESS[h])
+        if exes[h] is None:
+            return {"evaluations": 0, "distinct": 0, "coverage": {"harness": "build failed"}}
+    w = eloss_world(exes["eloss"])
+    (dl, dt), (el, et) = gen_ioni_lines(ctx.rng, w, 20000 if quick else 200000)
+    diverged, cover, distinct, seen, n_lines = [], {}, set(), {}, 0
+    for h, lines, tags in (("dist", dl, dt), ("eloss", el, et)):
+        n_lines += len(lines)
+        _, oh = vlib.run_lines([exes[h]], lines)
+        om = vlib.run_lines([vlib.model_exe("C15")], lines)[1] if ps["model_ok"] else []
+        for i, l in enumerate(lines):
+            a = oh[i] if i < len(oh) else "<missing>"
+            for t in tags[i]:
+                cover[t] = cover.get(t, 0) + 1
+            if ps["model_ok"]:
+                b = om[i] if i < len(om) else "<missing>"
+                if not nan_tolerant_equal(a, b):
+                    diverged.append({"op": l, "impl": a, "model": b, "branch": tags[i]})
+            if not (a.endswith("script-exhausted") or a in ("bad-op", "bad-data", "<missing>")):
+                distinct.add(l)
+            try:
+                r = ioni_oracle(l, a)
+            except (ValueError, IndexError) as e:
+                r = ("oracle:ioni:unparsable", "cannot interpret harness answer %r (%s)" % (a, e))
+            if r and r[0] not in seen:
+                seen[r[0]] = (r[1], l, a, h)
+    if diverged:
+        broken.append(f"correspondence (ionisation samplers): model and implementation differ on "
+                      f"{len(diverged)} ops (first: {diverged[0]['op'][:60]} ... {diverged[0]['branch']})")
+    for key, (text, l, a, h) in sorted(seen.items()):
+        ctx.violation(key, "real ionisation sampler (ScriptedEngine): " + text,
+                      {"harness": "harness/%s.cc" % h, "op": l, "impl_output": a,
+                       "theorem": "Props/C15.lean moller_support / bhabha_support / heavyIoni_support"})
+    st, st_n = ioni_stat_oracle(ctx, exes, w, 15 if quick else 60, 20000 if quick else 100000)
+    return {"evaluations": n_lines + st_n, "distinct": len(distinct),
+            "coverage": {"lines": n_lines, "diverging_ops": len(diverged),
+                         "first_divergences": diverged[:3], "branch_cover": dict(sorted(cover.items())),
+                         "oracle_keys": sorted(seen), "shape_test_min_p": st}}
+
+
 def run(ctx):
     quick = ctx.quick()
     ps = common.proof_side(ctx, "C15")
@@ -1060,6 +1356,7 @@ def run(ctx):
                        "theorem": FINDING_TEXT.get(key, "Props/C15.lean *_support")})
     st_results, st_n = stat_oracle(ctx, exe, 40000 if quick else 250000)
     el = eloss_part(ctx, ps, broken, quick)
+    io = ioni_part(ctx, ps, broken, quick)
     if broken and not ctx.violations:
         ctx.violation("unproved", "; ".join(broken)[:600],
                       {"no_longer_checks": broken, "diverging_ops": diverged[:3]}, found_input=False)
@@ -1087,12 +1384,16 @@ def run(ctx):
         "the default GenerateCanonical (std::generate_canonical of libstdc++, used only with engines "
         "other than XorwowRngEngine) is not modelled in Lean: compared with an exact reference and "
         "range-checked on the real code; the Xorwow specialisation is C13's subject",
+        "WentzelDistribution and SBEnergyDistribution (table / Mott-coefficient driven) are not "
+        "modelled in Lean; the radiative-correction branch of MuBB and the positivity of the Bhabha "
+        "rejection function are checked by the impl-side oracle, not proved",
         "goodness of fit (KS / chi-square at 1e-4, confirmed on 3 seeds) is a statistical test with "
         "the real XorwowRngEngine, not a proof",
     ]
     ctx.coverage.update({
-        "evaluations": len(lines) + len(sc) + st_n + el["evaluations"],
-        "distinct_nontrivial": len(distinct) + el["distinct"], "eloss": el["coverage"],
+        "evaluations": len(lines) + len(sc) + st_n + el["evaluations"] + io["evaluations"],
+        "distinct_nontrivial": len(distinct) + el["distinct"] + io["distinct"],
+        "eloss": el["coverage"], "ionisation": io["coverage"],
         "stdcanon_lines": len(sc), "stdcanon_mismatches": len(sc_bad),
         "rule": "op lines = distribution + parameters (log-uniform over wide ranges, special values, "
                 "branch thresholds) + script of canonical uniforms (53-bit grid values, extremes 0, "
